@@ -49,3 +49,59 @@ Print Assumptions C11_roundtrip_refuted_D8b.
 Example C11_roundtrip_premises_met :
   forallb (pair_ok default_cfg) [([97;38;98], [99;61;100]); ([], [32;43]); ([195;169], [37])] = true.
 Proof. vm_compute. reflexivity. Qed.
+
+(* "Initialising it from a query follows application/x-www-form-urlencoded parsing": the model's initialisation against
+   the independent transcription of the standard's section 5 (Spec/UrlEncoded.v; Proofs/UrlEncodedRefine.v, UrlEncodedRefine2.v).
+   Splitting on '&', skipping empty sequences, cutting at the first '=', '+' to space and percent-decoding coincide for EVERY
+   query (sp_init_bytes); names and values equal the standard's whenever the percent-decoded bytes are valid UTF-8, and in
+   general exactly when Go's reading of invalid bytes (one U+FFFD per byte, which is what the property says) and the
+   Encoding Standard's (one U+FFFD per maximal ill-formed subsequence) agree - they always agree up to runs of U+FFFD. *)
+From Verif Require Import Spec.PercentCodec Spec.UrlEncoded Proofs.UrlEncodedRefine Proofs.UrlEncodedRefine2.
+
+Theorem C11_init_structure_is_the_standards : forall c q, c_latin1 c = false ->
+  sp_init c q = map (both (sp_scalar c)) (urlencoded_parse_bytes q).
+Proof. exact sp_init_bytes. Qed.
+Print Assumptions C11_init_structure_is_the_standards.
+
+Theorem C11_init_is_urlencoded_parse : forall c q, c_latin1 c = false -> utf8_ok_query q = true ->
+  sp_init c q = map (fun nv => (utf8_of_codepoints (fst nv), utf8_of_codepoints (snd nv))) (urlencoded_parse q).
+Proof. exact sp_init_is_urlencoded_parse. Qed.
+Print Assumptions C11_init_is_urlencoded_parse.
+
+Theorem C11_init_is_urlencoded_parse_iff : forall c q, c_latin1 c = false -> c_acceptInvalid c = false ->
+  (sp_init c q = map (both utf8_of_codepoints) (urlencoded_parse q) <-> decoders_agree_on q).
+Proof. exact sp_init_is_urlencoded_parse_iff. Qed.
+Print Assumptions C11_init_is_urlencoded_parse_iff.
+
+Theorem C11_init_is_urlencoded_parse_up_to_replacement_runs : forall c q, c_latin1 c = false ->
+  map (both (fun s => squash (runes s))) (sp_init c q) = map (both squash) (urlencoded_parse q).
+Proof. exact sp_init_urlencoded_parse_squash. Qed.
+Print Assumptions C11_init_is_urlencoded_parse_up_to_replacement_runs.
+
+(* the unrestricted equation is false: "%E2%82A" gives U+FFFD U+FFFD A in Go's reading, U+FFFD A in the Encoding Standard's *)
+Theorem C11_init_per_byte_replacement_refuted : ~ sp_init_is_urlencoded_parse_full.
+Proof. exact sp_init_is_urlencoded_parse_refuted. Qed.
+Print Assumptions C11_init_per_byte_replacement_refuted.
+
+(* the standard's parser reads the model's serialization back as the list (same premises as C11_roundtrip) *)
+Theorem C11_standard_parser_reads_model_serialization : forall c l, c_latin1 c = false -> forallb (pair_ok c) l = true ->
+  urlencoded_parse (sp_string c l) = map (fun nv => (codepoints_of_utf8 (fst nv), codepoints_of_utf8 (snd nv))) l.
+Proof. exact spec_parse_of_model_string. Qed.
+Print Assumptions C11_standard_parser_reads_model_serialization.
+
+(* the serializers differ (the code escapes with the query set plus & = +, the standard with the urlencoded set), on exactly
+   21 code points, and never in what the standard's parser reads back *)
+Theorem C11_serializers_differ_exactly : forall c r, c_latin1 c = false -> c_querySet c = pes_Query ->
+  (qe_chunk c r = ue [r] <-> ~ In r differing_code_points).
+Proof. exact serializers_differ_exactly. Qed.
+Print Assumptions C11_serializers_differ_exactly.
+
+Theorem C11_serializers_read_back_alike : forall c l, c_latin1 c = false -> forallb (pair_ok c) l = true ->
+  urlencoded_parse (sp_string c l) = urlencoded_parse (urlencoded_serialize (map (both runes) l)).
+Proof. exact serializers_same_parse. Qed.
+Print Assumptions C11_serializers_read_back_alike.
+
+Theorem C11_standard_roundtrip : forall t, Forall scalar_tuple t -> urlencoded_parse (urlencoded_serialize t) = t.
+Proof. exact spec_roundtrip. Qed.
+Print Assumptions C11_standard_roundtrip.
+
